@@ -185,6 +185,7 @@ func (w *world) build(ts treeSpec, conc int64, forceT, forceB string) (*ctree, e
 				}
 				if !dup {
 					txs = append(txs, tx)
+					ntx++ // always at least one transaction of its own: siblings must not coincide
 				}
 			}
 		}
@@ -239,6 +240,9 @@ func (w *world) build(ts treeSpec, conc int64, forceT, forceB string) (*ctree, e
 		ct.hash[b] = blk.Hash(cfg)
 		if ts.Kind[b-1] != "ok" && bytes.Equal(ct.hash[b], v.Hash(cfg)) {
 			return nil, fmt.Errorf("block %d: invalid variant %s kept the hash", b, ct.bkind[b])
+		}
+		if old, ok := ct.ids[string(ct.hash[b])]; ok {
+			return nil, fmt.Errorf("block %d has the hash of block %d", b, old)
 		}
 		ct.ids[string(ct.hash[b])] = b
 		if ts.Tamper[b-1] {
